@@ -3,3 +3,4 @@ mod counter;
 fn helper(x: u64) -> u64 {
     x + 1
 }
+mod second;
